@@ -1194,6 +1194,48 @@ def rule_merge(repo, col):
                       'receiver without metadata merged with a table that '
                       'has some loses it' % (unparse(badd[0][0])
                                              if badd else ''))
+        # the fast path aggregates over the union of ids: it is only taken
+        # for union/union
+        for k, c_ in enumerate(calls, 1):
+            uu = False
+            for a in _ancestors(mod, c_):
+                if isinstance(a, ast.If) and any(
+                        x is c_ for b_ in a.body for x in ast.walk(b_)):
+                    eqs = {dotted(x.left) for x in ast.walk(a.test)
+                           if isinstance(x, ast.Compare) and isinstance(
+                               x.ops[0], ast.Eq) and const_str(
+                               x.comparators[0]) == 'union'}
+                    if {'sample', 'observation'} <= eqs:
+                        uu = True
+                if a is f:
+                    break
+            col.check(uu, 'AG-MERGEKIND', TABLE, 'Table.merge',
+                      'fast-path-union-only#%d' % k, c_,
+                      'reached only for union/union',
+                      'the aggregation over all ids (`%s`) is reached for '
+                      'a merge that is not union/union: an intersection '
+                      'computed this way drops the metadata handling and '
+                      'the merge functions' % unparse(c_, 50))
+        # every further call of the fast path sits under a metadata guard
+        # as well (in the guarded branch, not in its else)
+        for k, c_ in enumerate(calls[1:], 2):
+            under = False
+            for a in _ancestors(mod, c_):
+                if isinstance(a, ast.If) and any(
+                        x is c_ for b_ in a.body for x in ast.walk(b_)):
+                    disj_ = a.test.values if isinstance(
+                        a.test, ast.BoolOp) and isinstance(
+                        a.test.op, ast.Or) else [a.test]
+                    if any(expand(d_) for d_ in disj_):
+                        under = True
+                if a is f:
+                    break
+            col.check(under, rule, TABLE, 'Table.merge',
+                      'fast-path-guard#%d' % k, c_,
+                      'guarded by a metadata condition',
+                      'a further call of the metadata-dropping fast path '
+                      '(`%s`) is reached without any condition on the '
+                      'operands\' metadata' % unparse(c_, 50))
         # the receiver-only disjunct must at least mean "the receiver has
         # no metadata on either axis" (three-valued truth table over
         # None / empty / non-empty for each axis read)
